@@ -9,7 +9,9 @@ use crate::{
 pub(crate) struct SourceLineRanges {
     pub(crate) line_number_end: usize,
     pub(crate) token_ranges: Option<Vec<Range<usize>>>,
-    pub(crate) length: usize,
+    /// If the line failed to tokenize, this is the range of the line that
+    /// the tokenization error applies to.
+    pub(crate) tokenization_error_range: Option<Range<usize>>,
 }
 
 #[derive(Default)]
@@ -73,9 +75,11 @@ impl SourceFileMap {
             }
             DiagnosticMessage::Error(file_line_number, err) => {
                 match &err.error {
-                    InterpreterError::Syntax(SyntaxError::Tokenization(t)) => {
-                        let range = t.string_range(self.file_line_ranges[*file_line_number].length);
-                        return Some((*file_line_number, range));
+                    InterpreterError::Syntax(SyntaxError::Tokenization(_)) => {
+                        return self.file_line_ranges[*file_line_number]
+                            .tokenization_error_range
+                            .clone()
+                            .map(|range| (*file_line_number, range));
                     }
                     _ => {}
                 }
